@@ -92,9 +92,21 @@ def build(scratch_root=None, models=None, shared_prelude=True):
     t = _strip_section(t, r"^\[dev-dependencies\]")
     open(p, "w").write(t)
 
+    # --- a second, harness-free copy of mla for the bindings overlay (the mla harness modules
+    #     need model crates that curve25519-parser cannot be built against)
+    plain = os.path.join(ov, "mla_plain")
+    shutil.copytree(os.path.join(REPO, "mla"), plain, ignore=shutil.ignore_patterns("target", "benches", "tests", "*.mla"))
+    pp = os.path.join(plain, "Cargo.toml")
+    tt = open(pp).read()
+    tt = _strip_section(tt, r"^\[lints\]")
+    tt = _strip_section(tt, r"^\[\[bench\]\]")
+    tt = _strip_section(tt, r"^\[dev-dependencies\]")
+    open(pp, "w").write(tt)
+
     # --- bindings/C/Cargo.toml
     p = os.path.join(ov, "bindings", "C", "Cargo.toml")
     t = open(p).read()
+    t = t.replace('path = "../../mla"', 'path = "../../mla_plain"')
     t = _strip_section(t, r"^\[lints\]")
     t = t.replace('crate-type = ["cdylib", "staticlib"]', 'crate-type = ["lib"]')
     # models that would break curve25519-parser's own dependencies are not patched here
